@@ -301,3 +301,65 @@ func InlineScope(fn *ssa.Function) []*ssa.Function {
 	}
 	return out
 }
+
+// MayLocksets is the union variant of Locksets: the locks that are held on at least one path reaching the instruction
+// (lock taken by a non-deferred Lock/RLock and not released by a non-deferred Unlock on that path).
+func MayLocksets(fn *ssa.Function) map[ssa.Instruction]map[string]bool {
+	type set = map[string]bool
+	out := map[*ssa.BasicBlock]set{}
+	copySet := func(s set) set {
+		c := set{}
+		for k := range s {
+			c[k] = true
+		}
+		return c
+	}
+	transfer := func(b *ssa.BasicBlock, s set, rec map[ssa.Instruction]set) set {
+		cur := copySet(s)
+		for _, instr := range b.Instrs {
+			if rec != nil {
+				rec[instr] = copySet(cur)
+			}
+			addr, lock, unlock, deferred := LockOp(instr)
+			if addr == nil {
+				continue
+			}
+			k := LockKey(addr)
+			if k == "" {
+				continue
+			}
+			if lock && !deferred {
+				cur[k] = true
+			}
+			if unlock && !deferred {
+				delete(cur, k)
+			}
+		}
+		return cur
+	}
+	inOf := func(b *ssa.BasicBlock) set {
+		s := set{}
+		for _, p := range b.Preds {
+			for k := range out[p] {
+				s[k] = true
+			}
+		}
+		return s
+	}
+	changed := true
+	for iter := 0; changed && iter < 50; iter++ {
+		changed = false
+		for _, b := range fn.Blocks {
+			o := transfer(b, inOf(b), nil)
+			if !sameSet(o, out[b]) {
+				out[b] = o
+				changed = true
+			}
+		}
+	}
+	rec := map[ssa.Instruction]set{}
+	for _, b := range fn.Blocks {
+		transfer(b, inOf(b), rec)
+	}
+	return rec
+}
